@@ -184,7 +184,7 @@ func checkSig0(c sigCase) (err error) {
 		window = "window=future"
 	}
 	nontrivial := c.Msg.Records() >= 1
-	classes := []string{fmt.Sprintf("alg=%d", c.Alg), window, fmt.Sprintf("compress=%v", c.Msg.Compress), sizeClass(len(packed)), extraClass(len(c.Msg.Extra)),
+	classes := []string{fmt.Sprintf("alg=%d", c.Alg), window, fmt.Sprintf("compress=%v", c.Msg.Compress), sizeClass(len(packed)), hugeClass(c.Msg, len(packed)), extraClass(len(c.Msg.Extra)),
 		fmt.Sprintf("refsigned=%v", c.RefSign), fmt.Sprintf("signercase=%v", c.Signer != c.SignerAs)}
 	defer func() {
 		key := append([]byte(fmt.Sprintf("%d|%s|%d|%d|", c.Alg, c.SignerAs, c.IncOff, c.ExpOff)), packed...)
@@ -332,7 +332,21 @@ func checkSig0(c sigCase) (err error) {
 		for b := 0; b < 12*8; b++ {
 			addBit(b)
 		}
-		for b := last.Start * 8; b < len(out)*8; b++ {
+		sigBits := len(out) * 8
+		if len(out) > 16384 {
+			// very long messages (every flip costs a hash over all of it): every bit of the SIG
+			// record up to the signature field, and sampled bits of the signature itself
+			if _, so, e := ref.ParseSig(out, last); e == nil {
+				sigBits = so * 8
+				for i, s := range c.Sample {
+					if s < 0 {
+						s = -s
+					}
+					addBit(so*8 + (s+i*131)%((len(out)-so)*8))
+				}
+			}
+		}
+		for b := last.Start * 8; b < sigBits; b++ {
 			addBit(b)
 		}
 		for _, s := range c.Sample {
@@ -418,7 +432,11 @@ func checkSig0(c sigCase) (err error) {
 		}
 	} else {
 		for cut := 12; cut < len(out); cut++ {
-			if cut < 64 || cut >= last.Start-32 || cut%89 == 0 {
+			stride := 89
+			if len(out) > 16384 {
+				stride = 331
+			}
+			if cut < 64 || cut >= last.Start-32 || cut%stride == 0 {
 				cuts = append(cuts, cut)
 			}
 		}
@@ -560,6 +578,19 @@ func sizeClass(n int) string {
 	}
 }
 
+// hugeClass: does the message only fit into 64 KiB thanks to compression?
+func hugeClass(s msgspec.Spec, packed int) string {
+	if !s.Compress || packed < 16384 {
+		return "fits-only-compressed=false"
+	}
+	u := s
+	u.Compress = false
+	if b, err := u.Build().Pack(); err == nil && len(b) <= 65535 {
+		return "fits-only-compressed=false"
+	}
+	return "fits-only-compressed=true"
+}
+
 func extraClass(n int) string {
 	switch {
 	case n == 0:
@@ -595,7 +626,7 @@ func genWindow(t *rapid.T) (int64, int64) {
 
 func genSig0(t *rapid.T) sigCase {
 	c := sigCase{}
-	c.Msg = msgspec.Gen(t, msgspec.Opts{ManyExtra: true, Big: true})
+	c.Msg = msgspec.Gen(t, msgspec.Opts{ManyExtra: true, Big: true, Huge: true})
 	c.Alg = rapid.SampledFrom(sigAlgs).Draw(t, "alg")
 	c.KeySlot = rapid.IntRange(0, ref.RSAPoolSize()-1).Draw(t, "slot")
 	c.KeySeed = rapid.SliceOfN(rapid.Byte(), 1, 40).Draw(t, "seed")
